@@ -645,7 +645,7 @@ func (r *run) stepReport(op *Op) {
 	// changed view (pointer OR contents) is a violation of "rejected updates
 	// change nothing" as well
 	if p.blockErr == "invalid" {
-		r.contentTag = "C04,C05"
+		r.contentTag = "C04,C05,C07" // C07: "returns that error and the view is unchanged"
 	}
 	r.checkView("C07", op.Block && err == nil)
 	r.contentTag = ""
